@@ -228,10 +228,13 @@ def load_baseline(prop):
 
 def write_baseline(prop, gens):
   os.makedirs(os.path.join(ROOT, 'baseline'), exist_ok=True)
+  old = load_baseline(prop)
   out = {}
   for g in gens:
+    was = old.get(g['unit'], {})
     out[g['unit']] = dict(hash=g['hash'], proved=sorted(set(stable(ob['name']) for ob in g['obligations'] if ob['status'] == 'proved')),
-                          anchors=g.get('anchor_lines', {}), cover=(g.get('cover') is True))
+                          anchors=g.get('anchor_lines', {}),
+                          cover=(g.get('cover') is True) or (was.get('hash') == g['hash'] and bool(was.get('cover'))))
   with open(os.path.join(ROOT, 'baseline', prop + '.json'), 'w') as f:
     json.dump(out, f, indent=1, sort_keys=True)
 
